@@ -43,6 +43,15 @@ MulR(a, m, i, carry) ==                    \* a * m for a small natural m
     ELSE LET x == DigR(a, i) * m + carry IN MulR(a, m, i + 1, x \div 10) \o <<x % 10>>
 MulSmall(a, m) == IF m = 0 THEN <<>> ELSE Strip(MulR(a, m, 1, 0))
 
+(* halving and the odd part (for "is this integer exactly a double?") *)
+RECURSIVE HalveR(_, _, _)
+HalveR(d, i, rem) == IF i > Len(d) THEN <<>>
+                     ELSE LET x == rem * 10 + d[i] IN <<x \div 2>> \o HalveR(d, i + 1, x % 2)
+Halve(d) == Strip(HalveR(d, 1, 0))                                        \* floor(d / 2)
+IsEven(d) == d = <<>> \/ d[Len(d)] % 2 = 0
+RECURSIVE OddPart(_)
+OddPart(d) == IF d = <<>> \/ ~IsEven(d) THEN d ELSE OddPart(Halve(d))
+
 (* ---------------- signed ---------------- *)
 S(neg, d) == [neg |-> neg /\ d # <<>>, d |-> d]
 SNeg(a) == S(~a.neg, a.d)
